@@ -116,10 +116,15 @@ func rtSigner(in RTIn, chain *Chain, id int) interface {
 	panic("unknown signer kind " + in.Signer)
 }
 
-func rtVerifier(chain *Chain, withTSA bool) (notation.Verifier, notation.BlobVerifier) {
+func rtVerifier(chain *Chain, withTSA bool, expiryLogged ...bool) (notation.Verifier, notation.BlobVerifier) {
 	st := newMockTrustStore()
 	st.put(truststore.TypeCA, "s1", chain.Root())
 	sv := trustpolicy.SignatureVerification{VerificationLevel: "strict"}
+	if len(expiryLogged) > 0 && expiryLogged[0] {
+		// a signature that lives for a second only may well have expired by the time it is verified on a busy machine: under this
+		// statement the expiry validation is logged, not enforced (what is judged is the round trip, not how fast it was)
+		sv.Override = map[trustpolicy.ValidationType]trustpolicy.ValidationAction{trustpolicy.TypeExpiry: trustpolicy.ActionLog}
+	}
 	stores := []string{"ca:s1"}
 	if withTSA {
 		// a tsa store in the policy makes timestamp verification mandatory (verifyTimestamp: always)
@@ -205,7 +210,7 @@ func runRoundTrip() int {
 		must(json.Unmarshal(c.In, &in))
 		chain := rtChain(in.KeySpec)
 		sg := rtSigner(in, chain, c.ID)
-		ver, bver := rtVerifier(chain, in.Signer == "localTSA")
+		ver, bver := rtVerifier(chain, in.Signer == "localTSA", in.Expiry == 1)
 		meta := rtMeta(in.Meta)
 		ctx := context.Background()
 		obs := RTObs{PayloadFields: []string{}, BrokenReader: "n/a", WrongBlob: "n/a", WrongCMT: "n/a"}
